@@ -265,3 +265,31 @@ def run(ctx):
         okk = bool(gm) and bool(pt) and all(b.expr(c.args[1]).strip().show() == 'key' for c in gm) and all('key' in b.expr(c.args[1]).show() for c in pt)
         ctx.ob('KEY', 'try_consume_key', okk, b.where(), 'bucket looked up and inserted under the `key` parameter: %s' % okk)
     ctx.floor('KEY', 1)
+
+    # ---- 5. get-or-insert-and-consume is one critical section
+    # A key's budget lives in one Bucket in the map. If the lookup, the creation of a missing bucket, the consumption and
+    # the insertion are not under one guard of the map lock, two concurrent first requests for a key each build and
+    # consume their own full bucket (and the later insert overwrites a drained one): the limit is exceeded.
+    for fid in [i for i in prog.bodies.keys() if re.match(r'rate_limit::Engine::<K>::try_consume_(key|global)$', i)]:
+        b = prog.bodies[fid]
+        acqs = [c for c in b.calls(L.LOCK_ACQ)]
+        gs = L.guards(b)
+        work = b.calls(r'rate_limit::Bucket::try_consume$') + b.calls(r'LruCache::<.*>::(put|push|get_mut|get|get_or_insert_mut|get_or_insert)$')
+        one = len(acqs) == 1 and len(gs) == 1
+        inside = False
+        why = '%d acquisitions of the limiter lock' % len(acqs)
+        if one:
+            g = gs[0]
+            inside = bool(work)
+            for w in work:
+                okw, whyw = L.atomic_section(b, g, g.def_bb, w.bb)
+                if not okw:
+                    inside = False
+                    why = '%s (line %s) is outside the guard: %s' % (w.short(), w.ln, whyw)
+            if inside:
+                why = 'one write guard covers %d lookup / consume / insert calls' % len(work)
+        ctx.ob('ATOMIC', 'one-section:%s' % fid.rsplit('::', 1)[-1], one and inside, b.where(),
+               ('%s: %s' % (fid.rsplit('::', 1)[-1], why)) if (one and inside) else
+               ('%s: lookup, consumption and insertion of a bucket are not one critical section (%s): concurrent first requests for one key '
+                'are each admitted against their own fresh bucket' % (fid.rsplit('::', 1)[-1], why)), entry=fid)
+    ctx.floor('ATOMIC', 2)
